@@ -7,7 +7,7 @@ ROOT = os.path.dirname(os.path.dirname(os.path.abspath(__file__)))
 
 CLAIMED = {
     "C14": {
-        "text": "Lean theorems over the Run model (echo decision = documented truth table on all flag combinations; echo text = spawned command; --dry-run executes nothing for every program, memo state and child behaviour; --quiet / --verbose / set quiet change nothing but echo events: same exit status, same processes, backticks, prompts and bodies in the same order, for every program, environment and command line) + correspondence: the full 480-row table and random recipe graphs run against the just binary built from the working tree, compared with the model and with direct oracles (dry vs real, --quiet vs plain).",
+        "text": "Lean theorems over the Run model (echo decision = documented truth table on all flag combinations; echo text = spawned command; --dry-run executes nothing for every program, memo state and child behaviour; --quiet / --verbose / set quiet change nothing but echo events: same exit status, same processes, backticks, prompts and bodies in the same order, for every program, environment and command line; for backtick-free recipes and succeeding children the lines a dry run prints are exactly the commands and scripts a real run starts, in order) + correspondence: the full 480-row table and random recipe graphs run against the just binary built from the working tree, compared with the model and with direct oracles (dry vs real, --quiet vs plain).",
         "note": "Trusted: Lean kernel, the hand-written Run model (tied by the differential run), the fake shell vsh, the Python harness. --quiet with --dry-run is refused by clap (checked).",
         "technique": "Lean 4 proof over executable model + differential correspondence with the binary",
         "design": "4/C14",
